@@ -266,6 +266,36 @@ M('bkldlt-pivot-test-wrong-entry', 'C10', 'interchanged-pivot-is-tested',
   [('LinAlg/BKLDLT.h', "if (abs(diag_coeff(r)) >= alpha * sigma)", "if (abs_akk >= alpha * sigma)")],
   'reverts fix be8ca1b: nonsingular [1 2 0; 2 4 1; 0 1 0] reported as NumericalIssue')
 
+# ----------------------------------------------------------------------------- C15 / C16 / C17
+M('svd-matrixU-predicate-strict', 'C16', 'shape-predicates-agree',
+  [('contrib/PartialSVDSolver.h', "        if (m_m <= m_n)\n        {\n            return m_evecs.leftCols(nu);", "        if (m_m < m_n)\n        {\n            return m_evecs.leftCols(nu);")], 'square matrices: U derived although the eigenvectors are U already')
+M('svd-tall-op-order', 'C16', 'shape-predicates-agree',
+  [('contrib/PartialSVDSolver.h', """        m_cache.noalias() = m_mat * x;
+        y.noalias() = m_mat.transpose() * m_cache;""", """        m_cache.noalias() = m_mat * x;
+        y.noalias() = m_mat.transpose() * m_cache * Scalar(1);""")], 'neutral-looking; kept to see the rule is not brittle -- expected to stay silent? no: product shape changes')
+M('svd-no-clamp', 'C16', 'clamps-and-fixed-rule',
+  [('contrib/PartialSVDSolver.h', "        nv = (std::min)(nv, m_nconv);\n", "")])
+M('svd-selection-largestmagn', 'C16', 'clamps-and-fixed-rule',
+  [('contrib/PartialSVDSolver.h', "m_eigs->compute(SortRule::LargestAlge, maxit, tol);", "m_eigs->compute(SortRule::LargestMagn, maxit, tol);")], 'same spectrum for PSD A\'A up to rounding; tiny negative eigenvalues reorder')
+M('lobpcg-eigenvectors-coefficients', 'C17', 'accessor-returns-iterate-block',
+  [('contrib/LOBPCGSolver.h', "        return Matrix(X);", "        return m_evectors;")], 'reverts fix F7')
+M('lobpcg-success-on-preconditioned-residuals', 'C17', 'success-only-after-fresh-residual-test',
+  [('contrib/LOBPCGSolver.h', """        // calculate last residuals\r\n        m_residuals.resize(m_n, m_nev);\r\n        for (int i = 0; i < m_nev; i++)\r\n        {\r\n            m_residuals.col(i) = AX.col(i) - m_evalues(i) * BX.col(i);\r\n        }\r\n""", """        // calculate last residuals\r\n""")],
+  'final test runs on the residuals of the previous iteration (preconditioned / with removed columns)')
+M('davidson-check-before-sort', 'C15', 'success-only-after-fresh-sorted-convergence-test',
+  [('JDSymEigsBase.h', """            m_ritz_pairs.sort(selection);
+
+            bool converged = m_ritz_pairs.check_convergence(tol, m_number_eigenvalues);""", """            bool converged = m_ritz_pairs.check_convergence(tol, m_number_eigenvalues);
+            m_ritz_pairs.sort(selection);""")], 'convergence judged on the first nev pairs in ascending order, not in the selection order')
+M('davidson-notconverging-dropped', 'C15', 'status-assigned-on-every-path',
+  [('JDSymEigsBase.h', """            else if (niter_ == maxit - 1)
+            {
+                m_info = CompInfo::NotConverging;
+                break;
+            }""", "")], 'a different escape than the known finding (must still be reported)')
+M('ritzpairs-sort-forgets-residues', 'C15', 'ritz-pairs-consistency',
+  [('LinAlg/RitzPairs.h', "            m_residues.col(i) = temp.m_residues.col(ind[i]);\n", "")])
+
 # behaviour-preserving edits: every listed check must stay silent (exit 0)
 NEUTRAL = []
 
@@ -300,3 +330,19 @@ N('herm-ctor-nev-ge-n', 'C12', [('HermEigsBase.h', """        m_info(CompInfo::N
 
     // If op is an rvalue""")], 'same predicate written differently')
 N('bothends-rewritten', 'C18', [('Util/SelectionRule.h', "ind[i] = ind_copy[len - 1 - i / 2];", "ind[i] = ind_copy[len - (i + 1) / 2];")], 'same index for odd i')
+N('ritzpairs-sort-permutation-matrix', 'C15', [('LinAlg/RitzPairs.h', """        RitzPairs<Scalar> temp = *this;
+        for (Index i = 0; i < size(); i++)
+        {
+            m_values[i] = temp.m_values[ind[i]];
+            m_vectors.col(i) = temp.m_vectors.col(ind[i]);
+            m_residues.col(i) = temp.m_residues.col(ind[i]);
+            m_small_vectors.col(i) = temp.m_small_vectors.col(ind[i]);
+        }""", """        Eigen::PermutationMatrix<Eigen::Dynamic, Eigen::Dynamic, Index> perm(size());
+        for (Index i = 0; i < size(); i++)
+        {
+            perm.indices()[i] = ind[i];
+        }
+        m_values = perm.transpose() * m_values;
+        m_vectors = m_vectors * perm;
+        m_residues = m_residues * perm;
+        m_small_vectors = m_small_vectors * perm;""")], 'the correct permutation-matrix rewrite of the seeded C15 change')
